@@ -562,3 +562,19 @@ Proof. vm_compute. split; reflexivity. Qed.
 Example C05_example_spread_lower :
   Qred (consensus_log2 [-1; 1]) = 0 /\ Qred (consensus_spread_sq [-1; 1]) = 400 # 361.
 Proof. exact spread_K_radius_lower. Qed.
+
+(* ============================================================================================== *)
+(* loop ties / function-body ties, second batch (LOOP_TIES_GUIDE.md; specs tools/fnspecs/reference_loops.py): dispatch code
+   and per-row code of cnvlib/reference.py translated on every run, each equal to the model's function *)
+From CNV Require Proofs.FnRefColumns.
+
+(* load_sample_block's gc / rmask decision per bin: the cells of the block's optional gc / rmask columns are the two
+   results of the translated `if fa_fname and (fix_rmask or fix_gc): ... elif "gc" in cnarr1 and fix_gc: ...` *)
+Theorem C05_source_ref_columns : forall fa name fix_gc fix_rmask gc_first bins i,
+  name <> ""%string ->
+  let r := Gen.FnRefColumns.fn_ref_columns (Proofs.FnRefColumns.fa_name fa name) fix_rmask fix_gc
+             (fst (Proofs.FnRefColumns.stat_at fa bins i)) (snd (Proofs.FnRefColumns.stat_at fa bins i))
+             (is_some_col gc_first) (Proofs.FnRefColumns.stored_at gc_first i) in
+  Proofs.FnRefColumns.cell (block_gc fa fix_gc fix_rmask gc_first bins) i = fst r /\
+  Proofs.FnRefColumns.cell (block_rmask fa fix_gc fix_rmask bins) i = snd r.
+Proof. exact Proofs.FnRefColumns.fn_ref_columns_eq. Qed.
